@@ -56,6 +56,8 @@ pub struct Recorder {
     pub cur_case: Option<String>,
     /// integer form -> canonical text, per subtag kind (C17: distinct subtags, distinct integers)
     pub raw_seen: std::collections::HashMap<(u8, u64), String>,
+    /// class cases of MC_Sweep.tla, swept after the last case has been read
+    pub sweep: Option<Box<crate::sweep::Sweep>>,
 }
 
 impl Recorder {
@@ -69,6 +71,7 @@ impl Recorder {
             stats: BTreeMap::new(),
             cur_case: None,
             raw_seen: std::collections::HashMap::new(),
+            sweep: None,
         }
     }
 
